@@ -705,6 +705,9 @@ class Enum:
             return [(self.tok(st, ('CHILD', name)), opq)]
         if any(v[0] == SUB for v in avs):
             return [(st, opq)]
+        if name == 'get' and recv[0] == CFG and avs and not all(is_cfgish(v) for v in avs):
+            # a table lookup keyed by something read / by the data: the result may be None (`x = table.get(key); if x is None:` is a data-dependent branch)
+            return [(st, (OPAQUE, 'lookup'))]
         if recv[0] in (CFG, CONST) and all(is_cfgish(v) for v in avs) and not call.keywords:
             return [(st, (CFG, '%s.%s(%s)' % (paren(vtext(recv)), name, ', '.join(vtext(v) for v in avs))))]
         if recv[0] == OPAQUE:
